@@ -171,7 +171,9 @@ impl C11 {
             for r in ["17", "-0.5", "1e9", "-", ".", "1.2.3", "99999999999999999999999999999999999", ";", "\"unterminated", "\"\"", "#",
                 // numbers at the edges of what a 96-bit decimal / machine integers can hold
                 "79228162514264337593543950335", "-79228162514264337593543950335", "10000000000000000000000000000", "7922816251426433759354395034", "0.0000000000000000000000000001",
-                "9223372036854775807", "4294967296", "2147483648", "-2147483649", "5.99999999999999999999999999"] {
+                "9223372036854775807", "4294967296", "2147483648", "-2147483649", "5.99999999999999999999999999",
+                // legal values written with many fractional zeros (mantissa beyond 2^32 / 2^64)
+                "20000.000000", "1000.0000000000", "100.00000000000000000000", "5.8000000000000000000000", "-0.000000000000000000000000000"] {
                 self.probe(cx, &splice(a, b, r), "token-fault");
                 cx.count("fault.literal");
             }
